@@ -77,10 +77,12 @@ def r41(ctx) -> None:
             continue
         key = f'{f.qualname}: {recv}._max_uid increment'
         ok, k, aliases = _increment_form(s, t)
+        tmp_stmts = []
         if ok is None:
             # via a temporary: tmp = X._max_uid + 1 ; X._max_uid = tmp
             tmp = s.value.id
             ok = False
+            tmp_stmts = [st for st, _ in local_assigns(f, tmp)]
             for _, v in local_assigns(f, tmp):
                 if isinstance(v, ast.BinOp) and isinstance(v.op, ast.Add) \
                         and f'{recv}._max_uid' in (txt(v.left), txt(v.right)):
@@ -103,6 +105,16 @@ def r41(ctx) -> None:
             and txt(i.context_expr.func.value) in (f'{recv}.messages_lock',
                                                    f'{recv}._messages_lock')
             for w in withs for i in w.items)
+        for st in tmp_stmts:
+            w2 = enclosing(f.node, st, (ast.AsyncWith, ast.With))
+            same = any(x is y for x in w2 for y in withs
+                       if any(isinstance(i.context_expr, ast.Call)
+                              and call_name(i.context_expr) == 'write_lock'
+                              and txt(i.context_expr.func.value) in (
+                                  f'{recv}.messages_lock',
+                                  f'{recv}._messages_lock')
+                              for i in y.items))
+            locked = locked and same
         R.check(locked, f, s, key + f' under {recv}.messages_lock.write_lock',
                 f'the counter of `{recv}` is incremented outside the write '
                 f'lock of `{recv}` (or under another mailbox\'s lock): two '
